@@ -62,6 +62,10 @@ pub struct SimRng {
     /// every draw, in order: the bytes handed out by one fill_bytes/next_* call
     pub draws: Vec<Vec<u8>>,
     pub total: usize,
+    /// fault mode: `try_fill_bytes` reports an error and fills nothing, while
+    /// `fill_bytes` keeps working (a generator that retries internally)
+    pub try_fill_fails: bool,
+    pub try_fill_errors: usize,
 }
 
 impl SimRng {
@@ -73,6 +77,8 @@ impl SimRng {
             script_pos: 0,
             draws: Vec::new(),
             total: 0,
+            try_fill_fails: false,
+            try_fill_errors: 0,
         }
     }
     /// Tape = `prefix` followed by the stream of (`seed`,`label`).
@@ -114,6 +120,10 @@ impl RngCore for SimRng {
         self.fill(dest)
     }
     fn try_fill_bytes(&mut self, dest: &mut [u8]) -> Result<(), Error> {
+        if self.try_fill_fails {
+            self.try_fill_errors += 1;
+            return Err(Error::from(core::num::NonZeroU32::new(Error::CUSTOM_START + 7).unwrap()));
+        }
         self.fill(dest);
         Ok(())
     }
